@@ -69,12 +69,22 @@ def gen_model(rng, idx):
             # bilinear in state and input: nonlinear model, but every implicit step stays solvable
             rhs = ["-", rhs, ["*", ["*", ["c", str(Fraction(1, 32) * scale)], ["v", s]], ["v", rng.choice(inputs)]]]
         spec["equations"].append([["v", "der(%s)" % s], rhs])
+    if rng.random() < 0.35:
+        # an initial equation instead of a fixed start value (the state keeps its nominal)
+        st = rng.choice(spec["states"])
+        st.pop("start", None)
+        st.pop("fixed", None)
+        rhs0 = ["c", str(dyc(-4, 4))] if not pars or rng.random() < 0.5 else ["*", ["c", str(dyc(1, 3))], ["v", rng.choice(pars)]]
+        spec["initial_equations"] = [[["v", st["name"]], rhs0]]
     for a in algs:
         d = {"name": a}
         if rng.random() < 0.4:
             d["nominal"] = str(rng.choice([2, 5, Fraction(1, 2)]))
         spec["algebraics"].append(d)
-        rhs = ["+", ["*", ["c", str(dyc())], ["v", rng.choice(states)]], ["*", ["c", str(dyc())], ["v", rng.choice(inputs)]]]
+        def nz():
+            v = dyc()
+            return v if v != 0 else Fraction(3, 4)      # a vanishing coefficient lets pymoca fold the variable away
+        rhs = ["+", ["*", ["c", str(nz())], ["v", rng.choice(states)]], ["*", ["c", str(nz())], ["v", rng.choice(inputs)]]]
         if rng.random() < 0.3:
             rhs = ["+", rhs, ["c", str(dyc())]]
         spec["equations"].append([["v", a], rhs])
@@ -105,9 +115,12 @@ def gen_model(rng, idx):
         spec["outputs"].append("same_" + tgt)
     # (other rootfinder plugins are only used in the unsolvable-step probe: their convergence on badly
     #  scaled but solvable steps is CasADi's business, not this property's)
+    if not spec["delays"] and rng.random() < 0.35:
+        # explicit step sizes that span several import intervals (update(dt) with dt = m * spacing)
+        spec["multiples"] = [rng.choice([1, 2, 1, 3]) for _ in range(nsteps)]
     series = {}
     for u in inputs:
-        series[u] = [str(dyc(-4, 4)) for _ in range(nsteps + 1)]
+        series[u] = [str(dyc(-4, 4)) for _ in range(sum(spec.get("multiples", [1] * nsteps)) + 1)]
     spec["series"] = series
     return spec
 
@@ -154,7 +167,11 @@ def run_model(spec):
         raised = None
         for k in range(spec["nsteps"]):
             try:
-                p.update(-1)
+                mlt = spec.get("multiples", [1] * spec["nsteps"])[k]
+                if mlt == 1:
+                    p.update(-1)
+                else:
+                    p.update(float(mlt * spec["dt"]))
             except Exception as e:  # noqa: BLE001
                 raised = {"step": k, "error": "%s: %s" % (type(e).__name__, str(e)[:120])}
                 break
@@ -331,15 +348,25 @@ def run(ctx):
             if v.get("fixed") and abs(obs[0][v["name"]] - float(Fraction(v["start"]))) > 1e-7:
                 ctx.violation("sim/fixed-start", {"spec": spec, "variable": v["name"], "value": obs[0][v["name"]]},
                               what="fixed start value of %s not honoured at t0" % v["name"])
+        # initial equations hold at t0
+        from ..problems import ast_eval
+        for lhs, rhs in spec.get("initial_equations", []):
+            env0 = {k: Fraction(v) for k, v in obs[0].items()}
+            a, b = float(ast_eval(lhs, env0)), float(ast_eval(rhs, env0))
+            if abs(a - b) > 1e-6 * (1 + abs(b)):
+                ctx.violation("sim/initial-equation", {"spec": spec, "equation": [lhs, rhs], "lhs": a, "rhs": b, "t0": obs[0]},
+                              what="initial equation not satisfied after initialize(): %s = %r, right-hand side %r" % (lhs, a, b))
         # inputs at t+dt
+        mults = spec.get("multiples", [1] * spec["nsteps"])
+        at = [sum(mults[:i]) for i in range(n)]          # index of the import stamp reached after i steps
         for u, ser in spec["series"].items():
             for i in range(n):
-                if abs(obs[i][u] - float(Fraction(ser[i]))) > 1e-9:
+                if abs(obs[i][u] - float(Fraction(ser[at[i]]))) > 1e-9:
                     ctx.violation("sim/input-time", {"spec": spec, "input": u, "step": i, "value": obs[i][u], "series": ser},
                                   what="input %s at step %d is not the series value of that time" % (u, i))
         # time axis
         for i in range(n):
-            if abs(obs[i]["time"] - i * spec["dt"]) > 1e-6:
+            if abs(obs[i]["time"] - at[i] * spec["dt"]) > 1e-6:
                 ctx.violation("sim/time", {"spec": spec, "times": [o["time"] for o in obs]}, what="simulation time axis wrong")
         # aliases
         for a, tgt, sign in spec["aliases"]:
@@ -359,7 +386,7 @@ def run(ctx):
         # outputs recorded at every step incl. t0, exported
         ex = res["exported"]
         if ex is not None:
-            if ex["__times__"] != [float(i * spec["dt"]) for i in range(n)]:
+            if ex["__times__"] != [float(at[i] * spec["dt"]) for i in range(n)]:
                 ctx.violation("sim/export-times", {"spec": spec, "exported_times": ex["__times__"]}, what="exported time stamps wrong")
             for nm in spec["outputs"]:
                 if nm not in ex or len(ex[nm]) != n or any(abs(a - o[nm]) > 5e-7 * (1 + abs(o[nm])) + 5e-7 for a, o in zip(ex[nm], obs)):
